@@ -1131,7 +1131,8 @@ def run_function(mod_text, fn, cx, params, layout, max_paths=64, max_steps=40000
                 if pkey(v) not in (pkey(x), pkey(y)):
                     cx.bands[pkey(v)] = (x, y)
                 return v
-            raise Undecided("and of two symbolic values")
+            # x and y == x + y - (x or y)
+            return padd(padd(x, y), binop(cx, "or", w, x, y), -1)
         if op == "or":
             if w == 1:
                 v = padd(padd(x, y), pmul(x, y), -1)
@@ -1394,6 +1395,32 @@ def operand(cx, name, W, L):
     for i, l in enumerate(limbs):
         v = padd(v, pscale(l, 1 << (L * i)))
     return limbs, v
+
+
+def limbs_of(p, L, W):
+    """The limb polynomials of an operand polynomial sum_i limb_i 2^(i L) (as built by check_kernel), least significant first."""
+    out = [{} for _ in range(W // L)]
+    for m, c in p.items():
+        if c <= 0 or c & (c - 1) or (c.bit_length() - 1) % L or len(m) != 1 or m[0][1] != 1:
+            raise Undecided("operand is not a plain limb sum")
+        out[(c.bit_length() - 1) // L] = {m: 1}
+    return out
+
+
+def bitwise(cx, op, a, b, L, W):
+    """Specification of a limb-wise and/or/xor: sum_i (a_i OP b_i) 2^(i L), stated over the limbs with the same atoms the
+    interpreter creates for a machine `or` / `xor` of two symbolic values (x and y == x + y - (x or y))."""
+    r = {}
+    for i, (x, y) in enumerate(zip(limbs_of(a, L, W), limbs_of(b, L, W))):
+        kx, ky = pkey(x), pkey(y)
+        if op == "xor":
+            t = cx.atom("XOR", (kx, ky) if kx <= ky else (ky, kx), {"a": x, "b": y, "w": L})
+        else:
+            t = cx.atom("OR", (kx, ky) if kx <= ky else (ky, kx), {"a": x, "b": y})
+            if op == "and":
+                t = padd(padd(x, y), t, -1)
+        r = padd(r, pscale(t, 1 << (i * L)))
+    return r
 
 
 def check_kernel(mod_text, fn, W, opdesc, spec, seed=0, samples=200):
